@@ -1,4 +1,5 @@
 """C02 -- scalar multiplication paths."""
+import roles
 import exp
 from exp import Agg, Int, Lin, TOP
 from facts import callee, op_place
@@ -52,10 +53,12 @@ def rule_window_ranges(fx, rep):
 
 
 def rule_buffers(fx, rep):
-    for fn in ('wnaf::wnaf_table', 'wnaf::wnaf_form'):
+    W = roles.roles(fx)['wnaf']
+    for role in ('table', 'form'):
+        fn = W.get(role)
         b = fx.body(fn)
         if b is None:
-            rep.fail('TS', '%s:anchor' % fn, 'not found')
+            rep.fail('TS', 'wnaf-%s:anchor' % role, 'the Wnaf context methods call no %s-building helper' % role)
             continue
         rep.fn(fn)
         r = Resolver(b)
@@ -73,7 +76,7 @@ def rule_buffers(fx, rep):
         rep.check(ok, 'TS', '%s:buffer-cleared-first' % fn, 'the output buffer is emptied before any other use (reuse == fresh context)',
                   'the buffer parameter is used before / without being emptied: a reused wNAF context keeps stale entries', fx.fn(fn)['span'], construct=fn)
     # wnaf_form: the scalar is updated only through full-width repr operations
-    b = fx.body('wnaf::wnaf_form')
+    b = fx.body(W.get('form'))
     if b is not None:
         r = Resolver(b)
         bad = []
@@ -94,7 +97,7 @@ def rule_buffers(fx, rep):
         for w in r.d.partial[2]:
             bad.append('direct store into the scalar at %s' % (w[3]['span'] if w[0] == 'assign' else '?'))
         rep.check(not bad, 'WIRE', 'wnaf_form:full-width-updates', 'the scalar is only updated by sub_noborrow / add_nocarry / div2 (all limbs, carries propagated)',
-                  'the multi-limb scalar is modified through %s: a carry/borrow out of one limb is lost' % '; '.join(bad), fx.fn('wnaf::wnaf_form')['span'], construct='wnaf::wnaf_form')
+                  'the multi-limb scalar is modified through %s: a carry/borrow out of one limb is lost' % '; '.join(bad), fx.fn(W['form'])['span'], construct=W['form'])
 
 
 def field_of_param(t, idx_param=1):
@@ -137,9 +140,10 @@ def rule_staging(fx, rep):
         if nm == 'new':
             continue
         n += 1
-        tbl = calls.get('wnaf::wnaf_table', [])
-        frm = calls.get('wnaf::wnaf_form', [])
-        ex = calls.get('wnaf::wnaf_exp', [])
+        W = roles.roles(fx)['wnaf']
+        tbl = calls.get(W.get('table'), [])
+        frm = calls.get(W.get('form'), [])
+        ex = calls.get(W.get('exp'), [])
         if nm == 'shared':
             t = o.local(0)
             ok = t[0] == 'agg' and t[1].get('adt') == 'wnaf::Wnaf'
@@ -197,7 +201,7 @@ def rule_staging(fx, rep):
                 why = 'wnaf_exp receives fields %r, %r (expected table, digits)' % (e0, e1)
             if ok:
                 r0 = strip(o.local(0))
-                ok = r0[0] == 'call' and (r0[1].get('res') or '') == 'wnaf::wnaf_exp'
+                ok = r0[0] == 'call' and (r0[1].get('res') or '') == W.get('exp')
                 why = 'result is not wnaf_exp(..)'
             if ok:
                 fb_ = next(bi for bi, tt in b.calls() if tt is fill[0])
